@@ -166,6 +166,7 @@ func vhVersionCache() cache.Cache[*enode.Node, uint8] {
 //
 //verif:group node
 //verif:model (*github.com/ethereum/go-ethereum/p2p/enode.Node).ID = vmNodeID
+//verif:model (*github.com/ethereum/go-ethereum/p2p/enode.LocalNode).Node = vmLocalNode
 //verif:stub attr (*github.com/ethereum/go-ethereum/p2p/enode.Node).Seq (*github.com/ethereum/go-ethereum/p2p/enode.Node).UDP (*github.com/ethereum/go-ethereum/p2p/enode.Node).TCP (*github.com/ethereum/go-ethereum/p2p/enode.Node).IP (*github.com/ethereum/go-ethereum/p2p/enode.Node).IPAddr (*github.com/ethereum/go-ethereum/p2p/enode.Node).Record
 //verif:stub havoc (net.IP).To4
 //verif:model (github.com/ethereum/go-ethereum/p2p/enode.ID).String = vmIDString
@@ -296,7 +297,6 @@ var vmEnv *vmOfferEnv
 
 //verif:group offerenv
 //verif:use node tablestub enr fastcache
-//verif:model (*github.com/ethereum/go-ethereum/p2p/enode.LocalNode).Node = vmLocalNode
 //verif:model (*github.com/zen-eth/shisui/portalwire.UtpTransportService).CidWithAddr = vmCidWithAddr
 //verif:model (*github.com/zen-eth/shisui/portalwire.UtpTransportService).AcceptWithCid = vmAcceptWithCid
 //verif:model (*github.com/zen-eth/shisui/portalwire.UtpTransportService).DialWithCid = vmDialWithCid
@@ -475,6 +475,18 @@ func vhAddTableNode(maxEnr int) *enode.Node {
 func vhAddTableNodeWithID(id enode.ID) *enode.Node {
 	n := vhNodeWithID(0, []uint8{0, 1}, id)
 	sz := vhEnrSizes[vsChoose("enr-size", len(vhEnrSizes))]
+	b := vsBytesN("enr", sz)
+	b[0] = byte(len(vhTableNodes) + 1)
+	vhEnrBytes[n.Record()] = b
+	vhTableNodes = append(vhTableNodes, n)
+	return n
+}
+
+// vhAddTableNodeSymSize: like vhAddTableNodeWithID with a record of ANY size 1..maxSize (symbolic).
+func vhAddTableNodeSymSize(id enode.ID, maxSize int) *enode.Node {
+	n := vhNodeWithID(0, []uint8{0, 1}, id)
+	sz := vsInt("enr-size")
+	vsAssume(sz >= 1 && sz <= maxSize)
 	b := vsBytesN("enr", sz)
 	b[0] = byte(len(vhTableNodes) + 1)
 	vhEnrBytes[n.Record()] = b
